@@ -233,6 +233,15 @@ def t2(workdir):
         if not os.path.exists(obj):
             procs.append((obj, subprocess.Popen(["g++", "-std=gnu++14", "-msse4", "-O0", "-g", "-I", os.path.join(REPO, "src"),
                                                  "-c", sfile, "-o", obj + ".tmp%d" % os.getpid()], stdout=subprocess.PIPE, stderr=subprocess.PIPE, text=True)))
+    # one more object: every header of the library in one translation unit with -fkeep-inline-functions, so that function-local
+    # statics of inline (header-defined) member functions are in the inventory even when no library source calls the function
+    allh = os.path.join(objdir, "allhdr_" + hh[:24] + ".o")
+    objs.append(allh)
+    if not os.path.exists(allh):
+        tu = os.path.join(objdir, "allhdr_%d.cpp" % os.getpid())
+        open(tu, "w").write("".join('#include "%s"\n' % os.path.basename(h) for h in hdrs))
+        procs.append((allh, subprocess.Popen(["g++", "-std=gnu++14", "-msse4", "-O0", "-g", "-fkeep-inline-functions", "-I", os.path.join(REPO, "src"),
+                                              "-c", tu, "-o", allh + ".tmp%d" % os.getpid()], stdout=subprocess.PIPE, stderr=subprocess.PIPE, text=True)))
     for obj, pr in procs:
         out, err = pr.communicate()
         if pr.returncode != 0:
@@ -254,17 +263,22 @@ def t2(workdir):
             parts = line.split()
             if len(parts) >= 8 and parts[3] == "TLS":
                 tls.add(parts[7])
-        r = sh(["nm", obj])
-        mangled_w = [l.split()[-1] for l in r.stdout.splitlines() if len(l.split()) >= 3 and l.split()[-2] in "bBdD"]
-        r = sh(["nm", "-C", obj])
-        names = []
-        for l in r.stdout.splitlines():
+        def wanted(cls, demangled):
+            # data/bss symbols; and the library's own unique/weak objects (statics of inline functions and of templates)
+            if cls in ("b", "B", "d", "D"):
+                return True
+            return cls in ("u", "V", "v") and "CDNS::" in demangled and not demangled.startswith(("typeinfo ", "vtable for", "VTT for", "guard variable", "construction vtable"))
+        rm = sh(["nm", obj]).stdout.splitlines()
+        rc = sh(["nm", "-C", obj]).stdout.splitlines()
+        names, mang_of = [], {}
+        for lm, l in zip(rm, rc) if len(rm) == len(rc) else zip(rc, rc):
             p = l.split(None, 2)
-            if len(p) == 3 and p[1] in ("b", "B", "d", "D"):
+            if len(p) == 3 and wanted(p[1], p[2]):
                 names.append(p[2])
-            elif len(p) == 2 and p[0] == "U":
+                if len(rm) == len(rc):
+                    mang_of[p[2]] = lm.split()[-1]
+            elif len(p) == 2 and p[0] == "U" and obj != allh:      # (the all-headers unit also keeps the inline functions of libstdc++)
                 imports.add(p[1])
-        mang_of = dict(zip(names, mangled_w)) if len(names) == len(mangled_w) else {}
         todo = []
         for n in names:
             if n in writable and writable[n] != "mutable":
